@@ -16,6 +16,9 @@ import Geodesy.Props.C13
 import Geodesy.Lemmas.Mercator
 import Geodesy.Lemmas.Conic
 import Geodesy.Lemmas.TmercLemmas
+import Geodesy.Lemmas.Authalic
+import Geodesy.Lemmas.LaeaSphere
+import Mathlib.Analysis.SpecialFunctions.Trigonometric.InverseDeriv
 import Mathlib.Analysis.Real.Pi.Bounds
 
 namespace Geodesy
@@ -252,6 +255,270 @@ theorem tmerc_central_meridian (q : Tmerc.Pre ℝ) (lat : ℝ) :
     simp [Scalar.gt, not_lt.mpr this.le]
   simp only [hgt, Bool.false_eq_true, if_false, zero_add]
   exact ⟨_, rfl⟩
+
+/-! ### lcc: true scale on the standard parallels -/
+
+/-- the scale of lcc along the parallel of latitude φ is `k_0 · ρ(φ) · n / m(φ)` (`lcc_conformal`:
+`|∂(x, y)/∂λ| = a k_0 ρ n` against the radius of the parallel `a·m(φ)`, `m = cos φ / W`).  **With
+the constant `c = m_1 · ts_1⁻ⁿ / n` the constructor computes, it is exactly `k_0` on the standard
+parallel**, whatever the cone constant -/
+theorem lcc_scale_on_standard_parallel (k0 n m1 t1 : ℝ) (ht : 0 < t1) (hn : n ≠ 0) (hm : m1 ≠ 0) :
+    k0 * ((m1 * t1 ^ (-n) / n) * t1 ^ n) * n / m1 = k0 := by
+  have h : t1 ^ (-n) * t1 ^ n = 1 := by
+    rw [← Real.rpow_add ht]; simp
+  have : m1 * t1 ^ (-n) / n * t1 ^ n = m1 / n := by
+    rw [div_mul_eq_mul_div, mul_assoc, h, mul_one]
+  rw [this]
+  field_simp
+
+/-- **two standard parallels**: with the cone constant `n = ln(m_1/m_2) / ln(ts_1/ts_2)` the
+constructor computes, `m_1 · ts_1⁻ⁿ = m_2 · ts_2⁻ⁿ`: the constant `c`, hence the scale `k_0`, is the
+same on both parallels -/
+theorem lcc_second_parallel (m1 m2 t1 t2 : ℝ) (hm1 : 0 < m1) (hm2 : 0 < m2) (ht1 : 0 < t1) (ht2 : 0 < t2)
+    (hlog : Real.log (t1 / t2) ≠ 0) :
+    let n := Real.log (m1 / m2) / Real.log (t1 / t2)
+    m1 * t1 ^ (-n) = m2 * t2 ^ (-n) := by
+  intro n
+  have hq : (t1 / t2) ^ n = m1 / m2 := by
+    rw [Real.rpow_def_of_pos (div_pos ht1 ht2)]
+    have : Real.log (t1 / t2) * n = Real.log (m1 / m2) := by
+      simp only [n]; field_simp
+    rw [this, Real.exp_log (div_pos hm1 hm2)]
+  have hdiv : t1 ^ n / t2 ^ n = m1 / m2 := by rw [← Real.div_rpow ht1.le ht2.le]; exact hq
+  have h1 : 0 < t1 ^ n := Real.rpow_pos_of_pos ht1 n
+  have h2 : 0 < t2 ^ n := Real.rpow_pos_of_pos ht2 n
+  rw [Real.rpow_neg ht1.le, Real.rpow_neg ht2.le]
+  field_simp
+  have := (div_eq_div_iff h2.ne' hm2.ne').mp hdiv
+  linarith
+
+/-! ### laea: areas are preserved (polar aspects) -/
+
+/-- the forward polar aspect, spelled out: `x = x_0 + ρ sin(λ − λ_0)`, `y = y_0 ± ρ cos(λ − λ_0)` with
+`ρ = a·sqrt(q_p − q(∓sin φ))` (away from the pole, where the radicand is positive) -/
+theorem laea_polar_fwd_eq (p : Parsed ℝ) (s : Laea.Stored ℝ) (lon phi : ℝ)
+    (hpolar : (p.flagSet (S "north_polar") || p.flagSet (S "south_polar")) = true)
+    (hd : 0 < s.qp - Ancillary.qs (-(if p.flagSet (S "north_polar") then (-1 : ℝ) else 1) * Real.sin phi) (p.ellps 0).eccentricity) :
+    Laea.fwd p s lon phi =
+      ((p.real? (S "x_0")).getD 0 + (p.ellps 0).a * Real.sqrt (s.qp - Ancillary.qs (-(if p.flagSet (S "north_polar") then (-1 : ℝ) else 1) * Real.sin phi) (p.ellps 0).eccentricity)
+          * Real.sin (lon - Scalar.toRadians ((p.real? (S "lon_0")).getD 0)),
+       (p.real? (S "y_0")).getD 0 + (if p.flagSet (S "north_polar") then (-1 : ℝ) else 1) * ((p.ellps 0).a * Real.sqrt (s.qp - Ancillary.qs (-(if p.flagSet (S "north_polar") then (-1 : ℝ) else 1) * Real.sin phi) (p.ellps 0).eccentricity))
+          * Real.cos (lon - Scalar.toRadians ((p.real? (S "lon_0")).getD 0))) := by
+  have one : (@OfScientific.ofScientific ℝ Scalar.instOfScientific 10 true 1) = 1 := by
+    simp [OfScientific.ofScientific, Scalar.ofSci, Lit.toReal]
+  have zero : (@OfScientific.ofScientific ℝ Scalar.instOfScientific 0 true 1) = 0 := by
+    simp [OfScientific.ofScientific, Scalar.ofSci, Lit.toReal]
+  unfold Laea.fwd
+  simp only [hpolar, if_true, one, zero, scalar_sin, scalar_cos, scalar_sqrt, scalar_lt]
+  have hsg : (if p.flagSet (S "north_polar") = true then -(1 : ℝ) else 1) = (if p.flagSet (S "north_polar") then (-1 : ℝ) else 1) := by
+    split <;> rfl
+  rw [hsg]
+  have hnl : ¬ (s.qp - Ancillary.qs (-(if p.flagSet (S "north_polar") then (-1 : ℝ) else 1) * Real.sin phi) (p.ellps 0).eccentricity < 0) := not_lt.mpr hd.le
+  simp only [hnl, decide_false, Bool.false_eq_true, if_false]
+
+/-- **laea preserves areas (polar aspects)**: for every ellipsoid proper (`1e-7 ≤ e < 1`), either
+pole as centre, every false origin and every point inside the disc other than the pole of the
+aspect, the four partial derivatives of the forward projection exist and the Jacobian
+determinant is `M · N · cos φ = a²(1 − e²) cos φ / (1 − e² sin²φ)²` — the area element of the
+ellipsoid, so areas (and orientation) are preserved -/
+theorem laea_polar_equal_area (p : Parsed ℝ) (s : Laea.Stored ℝ) (lon phi : ℝ)
+    (hpolar : (p.flagSet (S "north_polar") || p.flagSet (S "south_polar")) = true)
+    (he7 : ¬ (p.ellps 0).eccentricity < 1e-7) (he1 : (p.ellps 0).eccentricity < 1)
+    (hd : 0 < s.qp - Ancillary.qs (-(if p.flagSet (S "north_polar") then (-1 : ℝ) else 1) * Real.sin phi) (p.ellps 0).eccentricity) :
+    let e := (p.ellps 0).eccentricity
+    let a := (p.ellps 0).a
+    ∃ dxl dyl dxp dyp : ℝ,
+      HasDerivAt (fun l => (Laea.fwd p s l phi).1) dxl lon ∧ HasDerivAt (fun l => (Laea.fwd p s l phi).2) dyl lon ∧
+      HasDerivAt (fun x => (Laea.fwd p s lon x).1) dxp phi ∧ HasDerivAt (fun x => (Laea.fwd p s lon x).2) dyp phi ∧
+      dxl * dyp - dxp * dyl = a ^ 2 * (1 - e ^ 2) * Real.cos phi / (1 - e ^ 2 * Real.sin phi ^ 2) ^ 2 := by
+  intro e a
+  set sg : ℝ := if p.flagSet (S "north_polar") then (-1 : ℝ) else 1 with hsg
+  have hsg2 : sg * sg = 1 := by rw [hsg]; split <;> norm_num
+  have he0 : 0 < e := by
+    have : (1e-7 : ℝ) ≤ e := not_lt.mp he7
+    have : (0 : ℝ) < 1e-7 := by norm_num
+    linarith
+  set x0 := (p.real? (S "x_0")).getD (0 : ℝ)
+  set y0 := (p.real? (S "y_0")).getD (0 : ℝ)
+  set l0 : ℝ := Scalar.toRadians ((p.real? (S "lon_0")).getD (0 : ℝ))
+  -- the radicand as a function of the latitude
+  let Q : ℝ → ℝ := fun u => (1 - e * e) * (u / (1 - e * u * (e * u)) - 0.5 / e * Real.log ((1 - e * u) / (1 + e * u)))
+  let D : ℝ → ℝ := fun x => s.qp - Q (-sg * Real.sin x)
+  have hqs : ∀ u, Ancillary.qs u e = Q u := fun u => Authalic.qs_eq u e he7
+  have hD : ∀ x, s.qp - Ancillary.qs (-sg * Real.sin x) e = D x := fun x => by simp only [D, hqs]
+  have hdpos : 0 < D phi := by rw [← hD]; exact hd
+  have hbound : |e * (-sg * Real.sin phi)| < 1 := by
+    rw [abs_mul, abs_mul, abs_neg, abs_of_pos he0]
+    have h1 : |sg| = 1 := by rw [hsg]; split <;> simp
+    rw [h1, one_mul]
+    calc e * |Real.sin phi| ≤ e * 1 := mul_le_mul_of_nonneg_left (Real.abs_sin_le_one phi) he0.le
+      _ < 1 := by linarith
+  have dQ := Authalic.q_hasDerivAt e (-sg * Real.sin phi) he0 hbound
+  have du : HasDerivAt (fun x => -sg * Real.sin x) (-sg * Real.cos phi) phi := (Real.hasDerivAt_sin phi).const_mul (-sg)
+  have dQu : HasDerivAt (Q ∘ fun x => -sg * Real.sin x)
+      (2 * (1 - e * e) / (1 - e * (-sg * Real.sin phi) * (e * (-sg * Real.sin phi))) ^ 2 * (-sg * Real.cos phi)) phi :=
+    HasDerivAt.comp phi (dQ : HasDerivAt Q _ _) du
+  have dD : HasDerivAt D (-(2 * (1 - e * e) / (1 - e * (-sg * Real.sin phi) * (e * (-sg * Real.sin phi))) ^ 2 * (-sg * Real.cos phi))) phi :=
+    dQu.const_sub s.qp
+  have dR : HasDerivAt (fun x => a * Real.sqrt (D x)) (a * (-(2 * (1 - e * e) / (1 - e * (-sg * Real.sin phi) * (e * (-sg * Real.sin phi))) ^ 2 * (-sg * Real.cos phi)) / (2 * Real.sqrt (D phi)))) phi :=
+    (dD.sqrt hdpos.ne').const_mul a
+  have hnear : ∀ᶠ x in nhds phi, 0 < D x := dD.continuousAt.eventually (lt_mem_nhds hdpos)
+  have hF : ∀ l x, 0 < D x → Laea.fwd p s l x = (x0 + a * Real.sqrt (D x) * Real.sin (l - l0), y0 + sg * (a * Real.sqrt (D x)) * Real.cos (l - l0)) := by
+    intro l x hx
+    rw [laea_polar_fwd_eq p s l x hpolar (by rw [hD]; exact hx)]
+    rw [show s.qp - Ancillary.qs (-sg * Real.sin x) (p.ellps 0).eccentricity = D x from hD x]
+  set rho := a * Real.sqrt (D phi) with hrho
+  set drho := a * (-(2 * (1 - e * e) / (1 - e * (-sg * Real.sin phi) * (e * (-sg * Real.sin phi))) ^ 2 * (-sg * Real.cos phi)) / (2 * Real.sqrt (D phi))) with hdrho
+  have dth : HasDerivAt (fun l : ℝ => l - l0) 1 lon := (hasDerivAt_id lon).sub_const l0
+  refine ⟨rho * (Real.cos (lon - l0) * 1), sg * rho * (-Real.sin (lon - l0) * 1), drho * Real.sin (lon - l0), sg * drho * Real.cos (lon - l0), ?_, ?_, ?_, ?_, ?_⟩
+  · have := (((Real.hasDerivAt_sin (lon - l0)).comp lon dth).const_mul rho).const_add x0
+    refine this.congr_of_eventuallyEq (Filter.Eventually.of_forall fun l => ?_)
+    simp only [hF l phi hdpos]; rfl
+  · have := (((Real.hasDerivAt_cos (lon - l0)).comp lon dth).const_mul (sg * rho)).const_add y0
+    refine this.congr_of_eventuallyEq (Filter.Eventually.of_forall fun l => ?_)
+    simp only [hF l phi hdpos]; rfl
+  · have := (dR.mul_const (Real.sin (lon - l0))).const_add x0
+    refine this.congr_of_eventuallyEq ?_
+    filter_upwards [hnear] with x hx
+    simp only [hF lon x hx]
+  · have := ((dR.const_mul sg).mul_const (Real.cos (lon - l0))).const_add y0
+    refine this.congr_of_eventuallyEq ?_
+    filter_upwards [hnear] with x hx
+    simp only [hF lon x hx]
+  · have hsq : Real.sqrt (D phi) ≠ 0 := (Real.sqrt_pos.mpr hdpos).ne'
+    have hw : (1 - e ^ 2 * Real.sin phi ^ 2) ≠ 0 := by
+      have : e ^ 2 * Real.sin phi ^ 2 < 1 := by
+        have h1 : Real.sin phi ^ 2 ≤ 1 := Real.sin_sq_le_one phi
+        have h2 : e ^ 2 < 1 := by nlinarith
+        nlinarith [sq_nonneg (Real.sin phi), sq_nonneg e]
+      linarith
+    have hden : 1 - e * (-sg * Real.sin phi) * (e * (-sg * Real.sin phi)) = 1 - e ^ 2 * Real.sin phi ^ 2 := by
+      have : e * (-sg * Real.sin phi) * (e * (-sg * Real.sin phi)) = (sg * sg) * (e ^ 2 * Real.sin phi ^ 2) := by ring
+      rw [this, hsg2, one_mul]
+    have hcs := Real.sin_sq_add_cos_sq (lon - l0)
+    have h1 : rho * (Real.cos (lon - l0) * 1) * (sg * drho * Real.cos (lon - l0)) - drho * Real.sin (lon - l0) * (sg * rho * (-Real.sin (lon - l0) * 1))
+        = sg * (rho * drho) := by
+      have : rho * (Real.cos (lon - l0) * 1) * (sg * drho * Real.cos (lon - l0)) - drho * Real.sin (lon - l0) * (sg * rho * (-Real.sin (lon - l0) * 1))
+          = sg * (rho * drho) * (Real.sin (lon - l0) ^ 2 + Real.cos (lon - l0) ^ 2) := by ring
+      rw [this, hcs, mul_one]
+    have h2 : rho * drho = a ^ 2 * (1 - e ^ 2) * (sg * Real.cos phi) / (1 - e ^ 2 * Real.sin phi ^ 2) ^ 2 := by
+      rw [hrho, hdrho, hden]
+      field_simp
+    rw [h1, h2]
+    have : sg * (a ^ 2 * (1 - e ^ 2) * (sg * Real.cos phi) / (1 - e ^ 2 * Real.sin phi ^ 2) ^ 2)
+        = (sg * sg) * (a ^ 2 * (1 - e ^ 2) * Real.cos phi / (1 - e ^ 2 * Real.sin phi ^ 2) ^ 2) := by ring
+    rw [this, hsg2, one_mul]
+
+/-- the forward oblique / equatorial aspect, spelled out through the authalic latitude
+`ξ = asin(q(sin φ)/q_p)` and the spherical projection of `Lemmas/LaeaSphere.lean` -/
+theorem laea_oblique_fwd_eq (p : Parsed ℝ) (s : Laea.Stored ℝ) (lon phi : ℝ)
+    (hnp : (p.flagSet (S "north_polar") || p.flagSet (S "south_polar")) = false) :
+    let xi := Real.arcsin (Ancillary.qs (Real.sin phi) (p.ellps 0).eccentricity / s.qp)
+    let D := lon - Scalar.toRadians ((p.real? (S "lon_0")).getD 0)
+    Laea.fwd p s lon phi =
+      ((p.real? (S "x_0")).getD 0 + s.rq * s.d * (LaeaSphere.kf (Real.sin s.xi0) (Real.cos s.xi0) D xi * LaeaSphere.uf D xi),
+       (p.real? (S "y_0")).getD 0 + s.rq / s.d * (LaeaSphere.kf (Real.sin s.xi0) (Real.cos s.xi0) D xi * LaeaSphere.vf (Real.sin s.xi0) (Real.cos s.xi0) D xi)) := by
+  intro xi D
+  have one : (@OfScientific.ofScientific ℝ Scalar.instOfScientific 10 true 1) = 1 := by
+    simp [OfScientific.ofScientific, Scalar.ofSci, Lit.toReal]
+  have two : (@OfScientific.ofScientific ℝ Scalar.instOfScientific 20 true 1) = 2 := by
+    simp [OfScientific.ofScientific, Scalar.ofSci, Lit.toReal]; norm_num
+  have zero : (@OfScientific.ofScientific ℝ Scalar.instOfScientific 0 true 1) = 0 := by
+    simp [OfScientific.ofScientific, Scalar.ofSci, Lit.toReal]
+  unfold Laea.fwd
+  simp only [hnp, Bool.false_eq_true, if_false, one, two, zero, scalar_sin, scalar_cos, scalar_sqrt, scalar_asin,
+    LaeaSphere.kf, LaeaSphere.uf, LaeaSphere.vf, LaeaSphere.Cf]
+  refine Prod.ext ?_ ?_ <;> simp only [xi, D] <;> ring
+
+/-- **laea preserves areas (oblique and equatorial aspects)**: for every ellipsoid proper, every
+centre that is not a pole, every false origin and every point that is neither a pole nor the
+antipode of the centre, the Jacobian determinant of the forward projection is
+`M · N · cos φ = a²(1 − e²) cos φ / (1 − e² sin²φ)²`.  Hypotheses on the stored constants are those
+the constructor establishes: `R_q² = a² q_p / 2`, `q_p ≠ 0`, `D ≠ 0` -/
+theorem laea_oblique_equal_area (p : Parsed ℝ) (s : Laea.Stored ℝ) (lon phi : ℝ)
+    (hnp : (p.flagSet (S "north_polar") || p.flagSet (S "south_polar")) = false)
+    (he7 : ¬ (p.ellps 0).eccentricity < 1e-7) (he1 : (p.ellps 0).eccentricity < 1)
+    (hqp : s.qp ≠ 0) (hd : s.d ≠ 0) (hrq : s.rq ^ 2 = (p.ellps 0).a ^ 2 * s.qp / 2)
+    (hw : |Ancillary.qs (Real.sin phi) (p.ellps 0).eccentricity / s.qp| < 1)
+    (hC : 0 < LaeaSphere.Cf (Real.sin s.xi0) (Real.cos s.xi0) (lon - Scalar.toRadians ((p.real? (S "lon_0")).getD 0))
+      (Real.arcsin (Ancillary.qs (Real.sin phi) (p.ellps 0).eccentricity / s.qp))) :
+    let e := (p.ellps 0).eccentricity
+    let a := (p.ellps 0).a
+    ∃ dxl dyl dxp dyp : ℝ,
+      HasDerivAt (fun l => (Laea.fwd p s l phi).1) dxl lon ∧ HasDerivAt (fun l => (Laea.fwd p s l phi).2) dyl lon ∧
+      HasDerivAt (fun x => (Laea.fwd p s lon x).1) dxp phi ∧ HasDerivAt (fun x => (Laea.fwd p s lon x).2) dyp phi ∧
+      dxl * dyp - dxp * dyl = a ^ 2 * (1 - e ^ 2) * Real.cos phi / (1 - e ^ 2 * Real.sin phi ^ 2) ^ 2 := by
+  intro e a
+  have he0 : 0 < e := by
+    have : (1e-7 : ℝ) ≤ e := not_lt.mp he7
+    have : (0 : ℝ) < 1e-7 := by norm_num
+    linarith
+  set s0 := Real.sin s.xi0
+  set c0 := Real.cos s.xi0
+  have h0 : s0 ^ 2 + c0 ^ 2 = 1 := Real.sin_sq_add_cos_sq s.xi0
+  set x0 := (p.real? (S "x_0")).getD (0 : ℝ)
+  set y0 := (p.real? (S "y_0")).getD (0 : ℝ)
+  set l0 : ℝ := Scalar.toRadians ((p.real? (S "lon_0")).getD (0 : ℝ))
+  let Q : ℝ → ℝ := fun u => (1 - e * e) * (u / (1 - e * u * (e * u)) - 0.5 / e * Real.log ((1 - e * u) / (1 + e * u)))
+  have hqs : ∀ u, Ancillary.qs u e = Q u := fun u => Authalic.qs_eq u e he7
+  let W : ℝ → ℝ := fun x => Q (Real.sin x) / s.qp
+  let Xi : ℝ → ℝ := fun x => Real.arcsin (W x)
+  have hXi : ∀ x, Real.arcsin (Ancillary.qs (Real.sin x) (p.ellps 0).eccentricity / s.qp) = Xi x := fun x => by
+    simp only [Xi, W]; rw [← hqs]
+  have hF : ∀ l x, Laea.fwd p s l x =
+      (x0 + s.rq * s.d * (LaeaSphere.kf s0 c0 (l - l0) (Xi x) * LaeaSphere.uf (l - l0) (Xi x)),
+       y0 + s.rq / s.d * (LaeaSphere.kf s0 c0 (l - l0) (Xi x) * LaeaSphere.vf s0 c0 (l - l0) (Xi x))) := by
+    intro l x
+    have := laea_oblique_fwd_eq p s l x hnp
+    simp only [hXi] at this
+    exact this
+  -- the authalic latitude and its derivative
+  have hbound : |e * Real.sin phi| < 1 := by
+    rw [abs_mul, abs_of_pos he0]
+    calc e * |Real.sin phi| ≤ e * 1 := mul_le_mul_of_nonneg_left (Real.abs_sin_le_one phi) he0.le
+      _ < 1 := by linarith
+  have dQ := Authalic.q_hasDerivAt e (Real.sin phi) he0 hbound
+  have dQs : HasDerivAt (Q ∘ Real.sin) (2 * (1 - e * e) / (1 - e * Real.sin phi * (e * Real.sin phi)) ^ 2 * Real.cos phi) phi :=
+    HasDerivAt.comp phi (dQ : HasDerivAt Q _ _) (Real.hasDerivAt_sin phi)
+  have dW : HasDerivAt W (2 * (1 - e * e) / (1 - e * Real.sin phi * (e * Real.sin phi)) ^ 2 * Real.cos phi / s.qp) phi :=
+    dQs.div_const s.qp
+  have hWphi : W phi = Ancillary.qs (Real.sin phi) (p.ellps 0).eccentricity / s.qp := by simp only [W]; rw [← hqs]
+  have hwlt := abs_lt.mp (by rw [← hWphi] at hw; exact hw : |W phi| < 1)
+  have dXi : HasDerivAt Xi (1 / Real.sqrt (1 - W phi ^ 2) * (2 * (1 - e * e) / (1 - e * Real.sin phi * (e * Real.sin phi)) ^ 2 * Real.cos phi / s.qp)) phi :=
+    (Real.hasDerivAt_arcsin (by linarith [hwlt.1]) (by linarith [hwlt.2])).comp phi dW
+  have hCpos : 0 < LaeaSphere.Cf s0 c0 (lon - l0) (Xi phi) := by rw [← hXi]; exact hC
+  obtain ⟨XL, XX, YL, YX, hXL, hXX, hYL, hYX, hdet⟩ := LaeaSphere.jacobian s0 c0 (lon - l0) (Xi phi) h0 hCpos
+  have dth : HasDerivAt (fun l : ℝ => l - l0) 1 lon := (hasDerivAt_id lon).sub_const l0
+  set xip := 1 / Real.sqrt (1 - W phi ^ 2) * (2 * (1 - e * e) / (1 - e * Real.sin phi * (e * Real.sin phi)) ^ 2 * Real.cos phi / s.qp) with hxip
+  refine ⟨s.rq * s.d * (XL * 1), s.rq / s.d * (YL * 1), s.rq * s.d * (XX * xip), s.rq / s.d * (YX * xip), ?_, ?_, ?_, ?_, ?_⟩
+  · have := ((HasDerivAt.comp lon hXL dth).const_mul (s.rq * s.d)).const_add x0
+    refine this.congr_of_eventuallyEq (Filter.Eventually.of_forall fun l => ?_)
+    simp only [hF l phi]; rfl
+  · have := ((HasDerivAt.comp lon hYL dth).const_mul (s.rq / s.d)).const_add y0
+    refine this.congr_of_eventuallyEq (Filter.Eventually.of_forall fun l => ?_)
+    simp only [hF l phi]; rfl
+  · have := ((HasDerivAt.comp phi hXX dXi).const_mul (s.rq * s.d)).const_add x0
+    refine this.congr_of_eventuallyEq (Filter.Eventually.of_forall fun x => ?_)
+    simp only [hF lon x]; rfl
+  · have := ((HasDerivAt.comp phi hYX dXi).const_mul (s.rq / s.d)).const_add y0
+    refine this.congr_of_eventuallyEq (Filter.Eventually.of_forall fun x => ?_)
+    simp only [hF lon x]; rfl
+  · have hcosXi : Real.cos (Xi phi) = Real.sqrt (1 - W phi ^ 2) := Real.cos_arcsin (W phi)
+    have hsq : Real.sqrt (1 - W phi ^ 2) ≠ 0 := by
+      apply (Real.sqrt_pos.mpr _).ne'
+      nlinarith [hwlt.1, hwlt.2]
+    have hden : 1 - e * Real.sin phi * (e * Real.sin phi) = 1 - e ^ 2 * Real.sin phi ^ 2 := by ring
+    have hwne : (1 - e ^ 2 * Real.sin phi ^ 2) ≠ 0 := by
+      have : e ^ 2 * Real.sin phi ^ 2 < 1 := by
+        have h1 : Real.sin phi ^ 2 ≤ 1 := Real.sin_sq_le_one phi
+        have h2 : e ^ 2 < 1 := by nlinarith
+        nlinarith [sq_nonneg (Real.sin phi), sq_nonneg e]
+      linarith
+    have h1 : s.rq * s.d * (XL * 1) * (s.rq / s.d * (YX * xip)) - s.rq * s.d * (XX * xip) * (s.rq / s.d * (YL * 1))
+        = s.rq ^ 2 * xip * (XL * YX - XX * YL) := by field_simp
+    rw [h1, hdet, hcosXi, hrq, hxip, hden]
+    field_simp
+    ring
 
 end C05
 end Geodesy
